@@ -6,9 +6,19 @@
 //   fp_harness [--locale] f32   <lo> <hi> [parse-every]      every float32 bit pattern in [lo,hi) widened to double
 //   fp_harness [--locale] eval  <literal>...                 one line per literal (used by the end-to-end monitor)
 //   fp_harness [--locale] fmtbits <hex64>...                 formatter on given bit patterns
+//   fp_harness [--locale] lit                                 end-to-end oracle; reads TAB separated lines
+//        <id> <source digits> <suffix: - f l> <param type: f d l> <sign: + -> <emitted text>
+//      and prints  LIT <id> <ok|bad|ambiguous|unparsable> want=<hex64> got=<hex64> err=<none|ulps|gross> cause=<none|pstrtod|other>
+//      want = the double (float for a float parameter, widened) the compiler gives the parameter when it is
+//      initialised from the source literal; got = the same for the emitted text; both through glibc
+//      strtod/strtof/strtold in the C locale.  cause=pstrtod: the emitted value is exactly what a faithful
+//      print of pstrtod(source) gives, i.e. the pipeline carried pstrtod's mis-parse through.
 //
 // --locale: the process calls setlocale(LC_ALL, "") first and insists that the decimal point it got is ','
 // (the caller provides LOCPATH/LC_ALL for a synthesised comma-decimal locale); exit 3 otherwise.
+//
+// Environment: FP_TRACE=<file>: before every check the current input is written at offset 0 of <file>, so that
+// after a crash (sanitizer report) the monitor learns which input was being processed.
 //
 // Output (stdout), machine readable:
 //   LOCALE <decimal point char>
@@ -16,6 +26,7 @@
 //   FEAT <signature> <count>          distinct input/format classes actually exercised
 //   FAIL <key> in=<input> got=<hex64> want=<hex64> [min=<minimal literal>]    (first few per key)
 //   FAILCOUNT <key> <n>
+//   SAMPLE <first few inputs and what came out>
 // Exit status: 0 the sweep ran (failures are lines, not exit codes); 2 usage; 3 locale not active.
 //
 // Failure keys are built from a finite alphabet:
@@ -41,6 +52,8 @@
 #include <stdio.h>
 #include <stdlib.h>
 #include <string.h>
+#include <fcntl.h>
+#include <unistd.h>
 
 #include <map>
 #include <string>
@@ -74,6 +87,20 @@ static uint64_t n_checked = 0;
 static std::map<std::string, uint64_t> feats;
 static std::map<std::string, uint64_t> failcount;
 static std::map<std::string, std::vector<std::string> > failsamples;
+
+static int trace_fd = -1;
+static void trace(const char *what, const char *in) {
+  if (trace_fd < 0) return;
+  char rec[256];
+  memset(rec, ' ', sizeof(rec));
+  int n = snprintf(rec, sizeof(rec), "%s %.200s", what, in);
+  if (n > 0 && n < (int)sizeof(rec)) rec[n] = ' ';
+  rec[sizeof(rec) - 1] = '\n';
+  if (pwrite(trace_fd, rec, sizeof(rec), 0) < 0) trace_fd = -1;
+}
+
+static std::vector<std::string> samples;
+static inline void sample(const std::string &s) { if (samples.size() < 4) samples.push_back(s); }
 
 static void fail(const std::string &key, const std::string &line) {
   uint64_t &n = failcount[key];
@@ -154,6 +181,7 @@ static void check_fmt(double x, const char *stratum) {
   if (buf == NULL) buf = (char *)malloc(32);
   memset(buf, 0x7f, 31);
   buf[31] = 0;
+  if (trace_fd >= 0) trace("fmtbits", hex64(bits(x)).c_str());
   pdtoa(x, buf);
   ++n_checked;
   size_t len = strnlen(buf, 32);
@@ -171,6 +199,7 @@ static void check_fmt(double x, const char *stratum) {
              nd <= 1 ? "1" : nd <= 15 ? "2-15" : nd == 16 ? "16" : "17+");
     ++feats[sig];
   }
+  if (samples.size() < 4) sample("pdtoa(0x" + hex64(bits(x)) + ") = " + buf);
   std::string key;
   if (*end != 0 || end == buf) {
     key = std::string("pdtoa-unparsable:fmt=") + fc;
@@ -444,6 +473,7 @@ static std::string minimise(const Lit &start, const Verdict &v0) {
 
 static void check_parse(const std::string &s, const char *stratum) {
   ++n_checked;
+  if (trace_fd >= 0) trace("eval", s.c_str());
   Lit l;
   bool wf = parse_lit(s.c_str(), l);
   Verdict v = judge(s);
@@ -451,6 +481,7 @@ static void check_parse(const std::string &s, const char *stratum) {
     ++feats[std::string("parse:") + stratum + ":" + lit_form(l) + ",want=" + val_class(v.want) +
             (l.suffix.empty() ? "" : ",suffix")];
   }
+  if (samples.size() < 4) sample("pstrtod(" + s.substr(0, 60) + ") = 0x" + hex64(bits(v.got)) + " strtod = 0x" + hex64(bits(v.want)));
   if (!v.value_ok) {
     std::string key, minimal = s;
     if (comma_mode) {
@@ -577,6 +608,7 @@ static void run_parse(const char *stratum, uint64_t seed, uint64_t count) {
     } else if (st == "pdtoa") {
       char b[64];
       double x = r.chance(50) ? stratified(r, i) : short_decimal(r);
+      if (trace_fd >= 0) trace("fmtbits", hex64(bits(x)).c_str());
       pdtoa(x, b);
       s = b;
     } else if (st == "g17") {
@@ -618,14 +650,90 @@ static void run_f32(uint64_t lo, uint64_t hi, uint64_t parse_every) {
     if (!isfinite(f)) continue;
     check_fmt((double)f, "f32all");
     if (parse_every && (u % parse_every) == 0) {
+      if (trace_fd >= 0) trace("fmtbits", hex64(bits((double)f)).c_str());
       pdtoa((double)f, b);
       check_parse(b, "f32all");
     }
   }
 }
 
+// ---------------------------------------------------------------------------------------------
+// end-to-end oracle
+// ---------------------------------------------------------------------------------------------
+
+// value a parameter of type `ptype` gets when initialised from the decimal text `digits` carrying `suffix`
+static bool param_value(const char *digits, char suffix, char ptype, bool neg, double &out, bool &ambiguous) {
+  char *end = NULL;
+  double v;
+  ambiguous = false;
+  if (suffix == 'f') {
+    float f = strtof_l(digits, &end, c_loc);
+    v = (double)f;
+  } else if (suffix == 'l') {
+    long double l = strtold_l(digits, &end, c_loc);
+    v = (double)l;
+    // the statement speaks of doubles; when rounding the long double differs from rounding the decimal
+    // directly (double rounding) the authority is ambiguous
+    char *e2 = NULL;
+    if (bits(strtod_l(digits, &e2, c_loc)) != bits(v)) ambiguous = true;
+  } else {
+    v = strtod_l(digits, &end, c_loc);
+  }
+  if (end == digits || *end != 0) return false;
+  if (ptype == 'f') v = (double)(float)v;
+  out = neg ? -v : v;
+  return true;
+}
+
+static void run_lit() {
+  char line[8192];
+  while (fgets(line, sizeof(line), stdin) != NULL) {
+    size_t n = strlen(line);
+    while (n && (line[n - 1] == '\n' || line[n - 1] == '\r')) line[--n] = 0;
+    std::vector<std::string> f;
+    char *save = NULL;
+    for (char *t = strtok_r(line, "\t", &save); t != NULL; t = strtok_r(NULL, "\t", &save)) f.push_back(t);
+    if (f.size() != 6) { printf("LIT %s unparsable want=0 got=0 err=none cause=none\n", f.empty() ? "?" : f[0].c_str()); continue; }
+    const std::string &id = f[0], &dig = f[1], &emitted = f[5];
+    char suffix = f[2][0] == '-' ? 0 : f[2][0], ptype = f[3][0];
+    bool neg = f[4][0] == '-';
+    ++n_checked;
+    double want = 0, got = 0;
+    bool amb = false, amb2 = false;
+    if (!param_value(dig.c_str(), suffix, ptype, neg, want, amb)) {
+      printf("LIT %s unparsable want=0 got=0 err=none cause=none\n", id.c_str());
+      continue;
+    }
+    const char *e = emitted.c_str();
+    bool eneg = false;
+    if (*e == '-') { eneg = true; ++e; }
+    if (!((*e >= '0' && *e <= '9') || *e == '.' || strncmp(e, "inf", 3) == 0 || strncmp(e, "nan", 3) == 0) ||
+        !param_value(e, 0, ptype, eneg, got, amb2)) {
+      printf("LIT %s unparsable want=%s got=0 err=gross cause=other\n", id.c_str(), hex64(bits(want)).c_str());
+      continue;
+    }
+    bool ok = bits(got) == bits(want);
+    const char *cause = "none";
+    if (!ok) {
+      // what would a faithful print of pstrtod(source) have produced?
+      char b[64];
+      double pv = pstrtod(dig.c_str(), NULL);
+      pdtoa(pv, b);
+      double carried = 0;
+      bool a3;
+      cause = "other";
+      if (param_value(b, 0, ptype, neg, carried, a3) && bits(carried) == bits(got) &&
+          bits(pv) != bits(strtod_l(dig.c_str(), NULL, c_loc)))
+        cause = "pstrtod";
+    }
+    printf("LIT %s %s want=%s got=%s err=%s cause=%s\n", id.c_str(), ok ? "ok" : amb ? "ambiguous" : "bad",
+           hex64(bits(want)).c_str(), hex64(bits(got)).c_str(), ok ? "none" : err_class(got, want), cause);
+  }
+}
+
 static void report() {
   printf("N %llu\n", (unsigned long long)n_checked);
+  for (auto &l : samples) printf("SAMPLE %s\n", l.c_str());
   for (auto &kv : feats) printf("FEAT %s %llu\n", kv.first.c_str(), (unsigned long long)kv.second);
   for (auto &kv : failsamples)
     for (auto &l : kv.second) printf("FAIL %s %s\n", kv.first.c_str(), l.c_str());
@@ -634,6 +742,7 @@ static void report() {
 
 int main(int argc, char **argv) {
   int a = 1;
+  if (getenv("FP_TRACE") != NULL) trace_fd = open(getenv("FP_TRACE"), O_WRONLY | O_CREAT | O_TRUNC, 0644);
   c_loc = newlocale(LC_ALL_MASK, "C", (locale_t)0);
   if (c_loc == (locale_t)0) { fprintf(stderr, "newlocale failed\n"); return 2; }
   if (a < argc && strcmp(argv[a], "--locale") == 0) {
@@ -668,6 +777,8 @@ int main(int argc, char **argv) {
              bits(g) == bits(w) ? "none" : err_class(g, w));
       check_parse(argv[a], "eval");
     }
+  } else if (mode == "lit") {
+    run_lit();
   } else if (mode == "fmtbits") {
     for (; a < argc; a++) check_fmt(from_bits(strtoull(argv[a], NULL, 16)), "bits");
   } else {
